@@ -186,7 +186,7 @@ func init() {
 		}
 		Properties[prop] = p
 	}
-	addRules("C02", "R-CONSTREL")
+	addRules("C02", "R-CONSTREL", "R-SOSDERIVE")
 	addRules("C03", "R-VERTEXSYM", "R-CONSTREL")
 	addRules("C04", "R-RESET", "R-FLAGS")
 	addRules("C05", "R-PADDING")
